@@ -218,7 +218,8 @@ class ProgramResult:
 
 def run_program(session, tree_factory, order=None, runs=1, max_paths=64, set_order="insertion", fresh_output=False):
     """Abstractly run ProtocolCodeGenerator(input).generate(output) `runs` times on one instance over the tree
-    returned by tree_factory() ({dir: protocol Elem}); returns Outcomes whose value is a list of ProgramResult."""
+    returned by tree_factory() ({dir: protocol Elem}) -- or, given a list of factories, over one tree per run (the
+    specification edited between the runs); returns Outcomes whose value is a list of ProgramResult."""
     from .natives import PathObj
     from .absint import explore
 
@@ -227,11 +228,14 @@ def run_program(session, tree_factory, order=None, runs=1, max_paths=64, set_ord
         for n in ("FileNotFoundError",):
             ExcClassLookup.table[n] = it.builtins[n]
         cg = it.load_module(CG)
-        files = tree_factory()
-        fs = AbstractFS("/in", files, order)
+        factories = list(tree_factory) if isinstance(tree_factory, (list, tuple)) else [tree_factory] * runs
         results = []
         gen = it.call(cg.env["ProtocolCodeGenerator"], [PathObj("/in")], {})
+        fs = last = None
         for r in range(runs):
+            if factories[r] is not last:
+                # the XML under the input root as this run finds it (edited between runs when the factories differ)
+                fs, last = AbstractFS("/in", factories[r](), order), factories[r]
             World.trace["fs"] = fs
             World.trace["files"] = []
             World.trace["makedirs"] = []
